@@ -1210,7 +1210,11 @@ func icContextWithValue(e *Engine, fr *frame, fn *ssa.Function, args []Value, c 
 func icRandRead(e *Engine, fr *frame, fn *ssa.Function, args []Value, c *ssa.CallCommon) (Value, bool) {
 	// arbitrary bytes: a fresh symbolic array (solver mode); zeros in concrete replay
 	s := args[0].(*Slice)
-	e.usedRand = true // not reproducible natively
+	for _, f := range e.curFn {
+		if f.Pkg != nil && strings.HasSuffix(f.Pkg.Pkg.Path(), "/web") {
+			e.usedRand = true // generated password: the native run draws other bytes
+		}
+	}
 	if e.cfg.Replay == nil && s.bobj != nil && s.len.op == OpConst {
 		arr := e.tt.Fresh("rand", SArr, 0)
 		for i := uint64(0); i < s.len.lo; i++ {
